@@ -665,7 +665,19 @@ def compose_stream(ctx: common.Ctx, n: int) -> None:
                 take = [avail.pop() for _ in range(min(len(avail), r.choice([1, 1, 2, 3])))]
                 if take:
                     sections.append({"patterns": take, "opts": opts})
-            yield {"fn": "vlib.tasks.c17_compose:compose", "args": {"sections": sections, "modules": mods}, "_k": k}
+            # TOML only: the same module may be named by several overrides that set different options - split one
+            # multi-option section into "all its modules get part 1" + "its first module also gets part 2"
+            toml_sections = None
+            cand = [s_ for s_ in sections if len(s_["patterns"]) >= 2 and len(s_["opts"]) >= 2]
+            if cand and r.random() < 0.6:
+                sp = r.choice(cand)
+                keys = sorted(sp["opts"])
+                part2 = {keys[-1]: sp["opts"][keys[-1]]}
+                part1 = {k_: sp["opts"][k_] for k_ in keys[:-1]}
+                first, rest = sp["patterns"][0], sp["patterns"][1:]
+                toml_sections = [s_ for s_ in sections if s_ is not sp] + [{"patterns": sp["patterns"], "opts": part1}, {"patterns": [first], "opts": part2}]
+                sections = [s_ for s_ in sections if s_ is not sp] + [{"patterns": [first], "opts": dict(sp["opts"])}, {"patterns": rest, "opts": part1}]
+            yield {"fn": "vlib.tasks.c17_compose:compose", "args": {"sections": sections, "modules": mods, "toml_sections": toml_sections}, "_k": k}
 
     with common.workdir("C17c") as wd:
         with Pool(env=common.base_env(VERIF_POOL_ROOT=wd)) as pool:
